@@ -2,6 +2,7 @@ SPECIFICATION GSpec
 CONSTANTS N = 2
           OUTER = FALSE
           AFTER = FALSE
+          PRE = FALSE
 CHECK_DEADLOCK FALSE
 INVARIANT Emit
 INVARIANT CatchIdsUnique
